@@ -545,6 +545,14 @@ class H2ServerPeer:
                 h2.settings.SettingCodes.MAX_CONCURRENT_STREAMS: 100,
                 h2.settings.SettingCodes.MAX_HEADER_LIST_SIZE: 65536,
             }
+            settings = dict(settings)
+            # INITIAL_WINDOW_SIZE binds the client only once it has ACKNOWLEDGED the SETTINGS frame; values
+            # given to the h2 library at construction are enforced at once, which would make this server
+            # reject a client that legitimately still uses the default window.  It is therefore sent in a
+            # second SETTINGS frame right behind the first one (pending until acknowledged).
+            self.late_settings = {}
+            if h2.settings.SettingCodes.INITIAL_WINDOW_SIZE in settings:
+                self.late_settings[h2.settings.SettingCodes.INITIAL_WINDOW_SIZE] = settings.pop(h2.settings.SettingCodes.INITIAL_WINDOW_SIZE)
             init.update(settings)
             self.conn.local_settings = h2.settings.Settings(client=False, initial_values=init)
         self.started = False
@@ -580,6 +588,8 @@ class H2ServerPeer:
         if not self.started:
             self.started = True
             self.conn.initiate_connection()
+            if getattr(self, "late_settings", None):
+                self.conn.update_settings(self.late_settings)
             out += self._flush()
         try:
             events = self.conn.receive_data(data)
